@@ -804,6 +804,10 @@ C09_Contiguous ==
     \A i, j \in 1..Len(tlog) :
         (i < j /\ OpOf(tlog[i]) = OpOf(tlog[j])) => \A k \in i..j : OpOf(tlog[k]) = OpOf(tlog[i])
 
+\* ... which rests on exclusive use of the transport's write side: at any time at most one goroutine stands in (or
+\* before) a transport write or flush - the holder of the sender role, or of the write lock on a synchronous channel
+C09_OneTransportWriter == Cardinality({p \in Procs : pc[p] \in {"t.write", "t.writev", "t.flush"}}) <= 1
+
 \* C02: whenever something is queued on an open channel somebody is committed
 \* to look at the queue again
 C02_Responsible ==
